@@ -40,25 +40,25 @@ type Violation struct {
 }
 
 type Result struct {
-	Prop       string                 `json:"prop"`
-	Engine     string                 `json:"engine"`
-	Scenario   string                 `json:"scenario"`
-	Desc       string                 `json:"desc"`
-	Shard      int                    `json:"shard"`
-	NShards    int                    `json:"nshards"`
-	Execs      int64                  `json:"executions"`
-	Nontrivial int64                  `json:"nontrivial"`
-	Skipped    int64                  `json:"unspecified_skipped"`
-	Outcomes   map[string]int64       `json:"outcomes"`
-	Capped     string                 `json:"capped,omitempty"`
-	HarnessErr string                 `json:"harness_error,omitempty"`
-	Violations []*Violation           `json:"violations,omitempty"`
-	Samples    []interface{}          `json:"samples,omitempty"`
-	WallS      float64                `json:"wall_s"`
-	Extra      map[string]interface{} `json:"extra,omitempty"`
-	Rule       string                 `json:"rule,omitempty"`
-	States     int                    `json:"states"`
-	Transitions int64                 `json:"transitions"`
+	Prop        string                 `json:"prop"`
+	Engine      string                 `json:"engine"`
+	Scenario    string                 `json:"scenario"`
+	Desc        string                 `json:"desc"`
+	Shard       int                    `json:"shard"`
+	NShards     int                    `json:"nshards"`
+	Execs       int64                  `json:"executions"`
+	Nontrivial  int64                  `json:"nontrivial"`
+	Skipped     int64                  `json:"unspecified_skipped"`
+	Outcomes    map[string]int64       `json:"outcomes"`
+	Capped      string                 `json:"capped,omitempty"`
+	HarnessErr  string                 `json:"harness_error,omitempty"`
+	Violations  []*Violation           `json:"violations,omitempty"`
+	Samples     []interface{}          `json:"samples,omitempty"`
+	WallS       float64                `json:"wall_s"`
+	Extra       map[string]interface{} `json:"extra,omitempty"`
+	Rule        string                 `json:"rule,omitempty"`
+	States      int                    `json:"states"`
+	Transitions int64                  `json:"transitions"`
 }
 
 // Ctx is handed to a part's Run function.
@@ -121,9 +121,9 @@ func (c *Ctx) Risky(input string) {
 	}
 }
 
-func (c *Ctx) Nontrivial()        { c.res.Nontrivial++ }
-func (c *Ctx) Skip()              { c.res.Skipped++ }
-func (c *Ctx) Outcome(o string)   { c.res.Outcomes[o]++ }
+func (c *Ctx) Nontrivial()      { c.res.Nontrivial++ }
+func (c *Ctx) Skip()            { c.res.Skipped++ }
+func (c *Ctx) Outcome(o string) { c.res.Outcomes[o]++ }
 func (c *Ctx) Extra(k string, v interface{}) {
 	if c.res.Extra == nil {
 		c.res.Extra = map[string]interface{}{}
